@@ -88,14 +88,14 @@ def is_max(a, i):
     return forall(range(len(a)), lambda j: a[i] >= a[j])
 
 
-@ensures(NORMALIZE)
+@ensures(NORMALIZE, export=False)
 def normalize_ends(a, min_val, max_val, result):
     """the minimum is mapped to min_val and the maximum to max_val"""
     return (is_ndarray(result) and len(result) == len(a)
             and forall(range(len(a)), lambda i: implies(is_min(a, i), eq(result[i], min_val)) and implies(is_max(a, i), eq(result[i], max_val))))
 
 
-@ensures(NORMALIZE)
+@ensures(NORMALIZE, export=False)
 def normalize_order(a, min_val, max_val, result):
     """increasing map for min_val < max_val: order is preserved"""
     return implies(min_val < max_val,
@@ -103,7 +103,7 @@ def normalize_order(a, min_val, max_val, result):
                           implies(a[i] <= a[j], le(result[i], result[j])) and implies(a[i] < a[j], lt(result[i], result[j])))))
 
 
-@ensures(NORMALIZE)
+@ensures(NORMALIZE, export=False)
 def normalize_affine(a, min_val, max_val, result):
     """affine map: relative spacing (ratios of differences) is preserved"""
     return forall(range(len(a)), lambda i: forall(range(len(a)), lambda j: forall(range(len(a)), lambda k: forall(range(len(a)), lambda l:
@@ -126,14 +126,14 @@ def period(x):
     return (x[len(x) - 1] - x[0]) + (x[len(x) - 1] - x[len(x) - 2])
 
 
-@ensures(REPEAT)
+@ensures(REPEAT, export=False)
 def repeat_post_y(x, y, repeats, result):
     """values: the original values tiled `repeats` times"""
     return (is_ndarray(result[1]) and len(result[1]) == repeats * len(y)
             and forall(range(repeats), lambda c: forall(range(len(y)), lambda j: result[1][c * len(y) + j] == y[j])))
 
 
-@ensures(REPEAT)
+@ensures(REPEAT, export=False)
 def repeat_post_x(x, y, repeats, result):
     """abscissae: copy c is the input shifted by c periods (period = span + last step)"""
     return (is_ndarray(result[0]) and len(result[0]) == repeats * len(x)
@@ -206,3 +206,40 @@ def truncate_post(x, y, x_left, x_right, x_left_as_ratio, x_right_as_ratio, resu
                   and l <= r
                   and len(result[0]) == r - l + 1 and len(result[1]) == r - l + 1
                   and forall(range(r - l + 1), lambda i: result[0][i] == x[l + i] and result[1][i] == y[l + i])))
+
+
+@ensures(NORMALIZE)
+def normalize_formula(a, min_val, max_val, result):
+    """functional form (lets callers conclude that equal inputs give equal outputs)"""
+    return is_ndarray(result) and len(result) == len(a) and forall(range(len(a)), lambda i: eq(result[i], (a[i] - min_of(a)) / (max_of(a) - min_of(a)) * (max_val - min_val) + min_val))
+
+
+@hint(REPEAT, scoped=True)
+def repeat_hint_closed(x, y, repeats, result):
+    """instances of the forward form at c = i div n, j = i mod n"""
+    return forall(range(repeats * len(x)), lambda i:
+                  result[0][(i // len(x)) * len(x) + i % len(x)] == x[i % len(x)] + (i // len(x)) * period(x))
+
+
+@ensures(REPEAT, uses=['repeat_hint_closed'])
+def repeat_closed_form(x, y, repeats, result):
+    return is_ndarray(result[0]) and is_ndarray(result[1]) and len(result[0]) == repeats * len(x) and len(result[1]) == repeats * len(y) and forall(range(repeats * len(x)), lambda i: result[0][i] == x[i % len(x)] + (i // len(x)) * period(x))
+
+
+@ensures(REPEAT, assumed="mathematical consequence of repeat_post_x (copy c is the input shifted by c periods, period > span): "
+                         "not derived by the SMT back end because it needs the div/mod decomposition of an arbitrary index "
+                         "over a symbolic length; monitored at run time")
+def repeat_increasing(x, y, repeats, result):
+    """abscissae strictly increasing (for strictly increasing input)"""
+    return implies(strictly_increasing(x), strictly_increasing(result[0]))
+
+
+
+@hint(REPEAT, scoped=True)
+def repeat_hint_closed_y(x, y, repeats, result):
+    return forall(range(repeats * len(y)), lambda i: result[1][(i // len(y)) * len(y) + i % len(y)] == y[i % len(y)])
+
+
+@ensures(REPEAT, uses=['repeat_hint_closed_y'])
+def repeat_closed_form_y(x, y, repeats, result):
+    return forall(range(repeats * len(y)), lambda i: result[1][i] == y[i % len(y)])
